@@ -34,8 +34,10 @@ PROFILE = {
 CONSTS = {"NumLex": "<- NumLexDef", "BigToks": "{}", "NameOrder": "<- NameOrderDef", "ExtraLayouts": "{}"}
 
 
-def run_tlc_struct(chk, invs, ninter, emit_mod, simulate=None, timeout=1500, free_schedule=False):
+def run_tlc_struct(chk, invs, ninter, emit_mod, simulate=None, timeout=1500, free_schedule=False, extra_layouts=None):
     consts = dict(CONSTS, NInter=ninter, FreeSchedule=free_schedule, EmitMod=emit_mod)
+    if extra_layouts:
+        consts["ExtraLayouts"] = extra_layouts
     cfg = tlc.make_cfg(constants=consts, invariants=list(invs) + ["Emit"])
     res = tlc.run_tlc("MC_Struct", cfg, workers=chk.nproc, timeout=timeout, simulate=simulate,
                       coverage=(chk.tier == "thorough" and simulate is None and ninter == 1),
